@@ -1071,6 +1071,11 @@ def corpus():
     p.meas(b, 0, 1); d = p.inreg(r, "H"); p.g2(d, c); p.op("obs", "nodereg", a); p.op("obs", "number", d); p.op("obs", "regri", c)
     p.meas(a, 0, 0); p.meas(c, 0, 1); p.meas(d, 0, 0); p.inreg(r)
     add("registers:reuse-positions", p)
+    # register full (its 10 qubits) on a node with room (max_qubits 12): the refusal leaves everything as it was, and
+    # the register stays fully usable (qubit at position 0 measured out, a new one fits again)
+    p = P(2, mq=12); r = p.newreg(0); hs = [p.inreg(r, "H" if k == 0 else "X") if k < 2 else p.inreg(r) for k in range(10)]
+    p.inreg(r); p.g2(hs[0], hs[9]); p.meas(hs[0], 0, 0); p.inreg(r, "K"); p.inreg(r); p.meas(hs[1], 0, 1)
+    add("registers:register-full-node-has-room", p)
     # queues: FIFO per socket across interleavings, two sockets, both dictionaries
     p = P(3); a = p.new(0, "H"); b = p.new(0, "K"); c = p.new(2, "X"); d = p.new(0)
     x = p.nqsend(a, 1, 0, 1); y = p.nqsend(c, 1, 2, 1); z = p.nqsend(b, 1, 0, 7); w = p.nqepr(d, 1, 0, 1, 42)
@@ -1274,8 +1279,16 @@ def shrink(prog, kind, key, budget_s=10.0):
     return best, what
 
 
-def stage(ctx, res):
-    """run the extended stage and fold its verdicts into `res` (the Result of C02)"""
+OWN_X_BY_PROP = {
+    # which oracle kinds of this stage are the calling check's own violations: (on the extended ops, on base ops)
+    "C02": (OWN_X, None),                             # None: vc.OWN["C02"] | {"queue"}, see below
+    "C05": ({"xatomic", "xrefuse"}, None),            # refusals of the extended ops: atomic, documented class
+}
+
+
+def stage(ctx, res, prop="C02", n_gen=None):
+    """run the extended stage and fold its verdicts into `res` (the Result of the calling check: C02, or C05 which
+    judges the refusals of the extended operations — kinds xatomic / xrefuse — as its own)"""
     core.scratch_repo()
     vc.instrument()
     t0 = time.time()
@@ -1287,7 +1300,7 @@ def stage(ctx, res):
     else:
         rng = random.Random(ctx.rng.getrandbits(48))
         jobs = [("static", name, p) for name, p in corpus()]
-        jobs += [("gen", rng.getrandbits(48)) for _ in range(ctx.scale(85, 4000))]
+        jobs += [("gen", rng.getrandbits(48)) for _ in range(ctx.scale(85, 4000) if n_gen is None else n_gen)]
         outs = run_jobs(jobs, ctx.thorough)
     res.rule = (res.rule + " || " if res.rule else "") + RULE
     cand, nops, probes = {}, 0, 0
@@ -1318,10 +1331,11 @@ def stage(ctx, res):
         tie(res, outs)
     else:
         res.notes.append("Lean build broken: vnetx driver tie skipped, oracles only")
-    own_base = vc.OWN["C02"]
+    own_x = OWN_X_BY_PROP[prop][0]
+    own_base = vc.OWN[prop] | ({"queue"} if prop == "C02" else set())
     for (kind, key) in sorted(cand, key=lambda kk: (cand[kk][0], kk)):
         size, p, what, count, opk = cand[(kind, key)]
-        mine = kind in OWN_X if opk in X_KINDS else kind in (own_base | {"queue"})
+        mine = kind in own_x if opk in X_KINDS else kind in own_base
         if not mine:
             res.notes.append("x-stage oracle failure owned by another check: %s %s x%d e.g. %s" % (kind, key, count, prog_text(p)))
             res.count("x:foreign:%s" % kind, count)
